@@ -121,11 +121,11 @@ def statOf (f : St) (name : String) (lo hi : Option Rat) (c : IClosed) : Option 
     | .ok g =>
       match name with
       | "integral" => some (showVal (integral g))
-      | "mean" => some (showVal (mean g))
-      | "var" => some (showVal (var g))
-      | "std2" => some (showVal (var g))
-      | "median" => some (showVal (median g))
-      | "modes" => some (" ".intercalate ((modes g).map showRat))
+      | "mean" => some (match mean g with | some v => showRat v | none => "ERR Undefined")
+      | "var" => some (match var g with | some v => showRat v | none => "ERR Undefined")
+      | "std2" => some (match var g with | some v => showRat v | none => "ERR Undefined")
+      | "median" => some (match median g with | some v => showRat v | none => "ERR Undefined")
+      | "modes" => some (match modes g with | [] => "ERR Undefined" | ms => " ".intercalate (ms.map showRat))
       | _ => none
 
 def parseIv (s : String) : Option Iv :=
@@ -279,7 +279,11 @@ def step (e : Env) (line : String) : Env × String :=
         | _, _ => none
       match q with
       | none => bad
-      | some q => let (o', a) := o.query q; (e.setObj r o', " ".intercalate (a.map showVal))
+      | some q =>
+        let (o', a) := o.query q
+        -- distribution queries and the mode do not exist without a finite defined piece
+        let undefinedQ := (Obj.needsDist q || name == "modes") && (valueSums o.f).isEmpty
+        (e.setObj r o', if undefinedQ then "ERR Undefined" else " ".intercalate (a.map showVal))
   | "agg" :: r2 :: name :: rs =>
     let F : Option AggFn := match name with
       | "sum" => some .sum | "mean" => some .mean | "median" => some .median | "min" => some .min
@@ -319,6 +323,7 @@ def step (e : Env) (line : String) : Env × String :=
       | some l, some rr, some lo, some hi =>
         match rollingMean f l rr lo hi with
         | .ok rows => (e, " ".intercalate (rows.map fun (x, y) => s!"{showRat x}:{showVal y}"))
+        | .error .assertion => (e, "ERR Undefined")
         | .error err => (e, showErr err)
       | _, _, _, _ => bad
   | "describe" :: r :: lo :: hi :: ps =>
@@ -384,7 +389,9 @@ def step (e : Env) (line : String) : Env × String :=
             match corrParts f g lo hi 0 true with
             | .ok (c, vf, vg) => s!"{showVal c},{showVal vf},{showVal vg}" | .error _ => "err"
         | _, _ => "err"
-      (e, " ".intercalate out)
+      -- one undefined pair makes the whole matrix call fail in the implementation
+      if which == "corr" && out.any (fun t => (t.splitOn "nan").length > 1) then (e, "ERR Undefined")
+      else (e, " ".intercalate out)
     | none, _, _ => unbound
     | _, _, _ => bad
   | ["frame", r] =>
@@ -484,11 +491,15 @@ def step (e : Env) (line : String) : Env × String :=
           let pre := cp == "pre"
           if which == "cov" then
             match cov f g lo hi lag pre with
-            | .ok v => (e, showVal v)
+            | .ok (some v) => (e, showRat v)
+            | .ok none => (e, "ERR Undefined")
             | .error err => (e, showErr err)
           else
             match corrParts f g lo hi lag pre with
-            | .ok (c, vf, vg) => (e, s!"{showVal c} {showVal vf} {showVal vg}")
+            | .ok (c, vf, vg) =>
+              -- without a finite piece on which both are defined there is no deviation to divide by
+              if vf.isNone || vg.isNone then (e, "ERR Undefined")
+              else (e, s!"{showVal c} {showVal vf} {showVal vg}")
             | .error err => (e, showErr err)
         | _, _, _ => bad
       | _, _ => unbound
